@@ -473,6 +473,14 @@ def run_order(cs: Case, m, eng: O.Engine, od, size_kind, after_refresh):
                    F(a_usd) if a_usd is not None else None, F(a_cap) if a_cap is not None else None)
     cs.trace.append((op, name, str(a_amount), mode + ":" + od["sub"], str(a_limit), str(a_usd), str(a_cap)))
     cash_before = F(m.balance)
+    if rng.random() < 0.3:
+        # a quote first: estimate_cost is a read-only helper, whatever it answers (or refuses) the order that follows
+        # must meet the book the model holds
+        q_name = name if rng.random() < 0.8 else rng.choice(sorted(eng.books) or [name])
+        q_side = ("buy" if is_buy else "sell") if rng.random() < 0.8 else ("sell" if is_buy else "buy")
+        q_amount = a_amount if rng.random() < 0.6 else as_arg(rng, od["req"] * rng.choice([Fraction(1, 2), 2, 5]))
+        Dr.call_op(m.estimate_cost, q_name, q_amount, q_side, a_limit if rng.random() < 0.3 else None)
+        mon.hit("quote-before-order")
     res = Dr.call_op(m.buy if is_buy else m.sell, name, a_amount, a_limit, a_usd, a_cap)
     mon.hit(op)
     why = "+".join(d.why) or "plain"
